@@ -1133,6 +1133,12 @@ class Lib:
         a, b = ex.ev(st, node.args[0]), ex.ev(st, node.args[1])
         return SV(BOOL, a.z == b.z)
 
+    def b_has_attr(self, ex, st, node):
+        """spec: has_attr(obj, 'name') - the object has that attribute (see Contract.fields 'maybe T')"""
+        o = ex.ev(st, node.args[0])
+        name = node.args[1].value
+        return SV(BOOL, ex.uf("hasattr_%s_%s" % (o.t.name, name), o.t.sort(), z3.BoolSort())(o.z))
+
     def b_marked(self, ex, st, node):
         """spec: marked('name', a, b, ...) - an uninterpreted boolean MARKER term.  A quantified fact of the form
         forall a, b: range(a, b) -> (fact(a, b) and marked('n', a, b)) with trigger marked('n', a, b) never fires on
